@@ -33,39 +33,50 @@ class StlHorizon(LtlHorizon, StlAstVisitor):
     def visit(self, node, *args, **kwargs):
         return StlAstVisitor.visit(self, node, *args, **kwargs)
 
+    def bounds(self, node):
+        begin, end = bounds_in_default_unit(node, self.ast)
+        # Pastification rewrites the bounds (eventually[b,e] becomes once[0,e-b] delayed by e): whether the written
+        # bounds are whole numbers of samples can only be checked here, the rewritten ones no longer tell.
+        if self.step is not None and (Fraction(begin) % self.step != 0 or Fraction(end) % self.step != 0):
+            raise RTAMTException('The operator bound must be a multiple of the sampling period')
+        return begin, end
+
     def visitTimedEventually(self, node, *args, **kwargs):
         op_horizon = self.visit(node.children[0], *args, **kwargs)
-        begin, end = bounds_in_default_unit(node, self.ast)
+        begin, end = self.bounds(node)
         self.horizons[node] = op_horizon + end
         return op_horizon + end
 
     def visitTimedAlways(self, node, *args, **kwargs):
         op_horizon = self.visit(node.children[0], *args, **kwargs)
-        begin, end = bounds_in_default_unit(node, self.ast)
+        begin, end = self.bounds(node)
         self.horizons[node] = op_horizon + end
         return op_horizon + end
 
     def visitTimedUntil(self, node, *args, **kwargs):
         op1_horizon = self.visit(node.children[0], *args, **kwargs)
         op2_horizon = self.visit(node.children[1], *args, **kwargs)
-        begin, end = bounds_in_default_unit(node, self.ast)
+        begin, end = self.bounds(node)
         out = max(op1_horizon, op2_horizon) + end
         self.horizons[node] = out
         return out
 
     def visitTimedOnce(self, node, *args, **kwargs):
         op_horizon = self.visit(node.children[0], *args, **kwargs)
+        self.bounds(node)
         self.horizons[node] = op_horizon
         return op_horizon
 
     def visitTimedHistorically(self, node, *args, **kwargs):
         op_horizon = self.visit(node.children[0], *args, **kwargs)
+        self.bounds(node)
         self.horizons[node] = op_horizon
         return op_horizon
 
     def visitTimedSince(self, node, *args, **kwargs):
         op1_horizon = self.visit(node.children[0], *args, **kwargs)
         op2_horizon = self.visit(node.children[1], *args, **kwargs)
+        self.bounds(node)
         out = max(op1_horizon, op2_horizon)
         self.horizons[node] = out
         return out
